@@ -496,8 +496,16 @@ def report(rep, violations, known_hits, listed, pr, diag, static):
                            "note": "matches the signature of proposed known finding %s (docs/C07.md); not listed in known_findings.json "
                                    "and the fix patch repo_patches/C07-*.diff is not applied" % fid,
                            "job_kind": job["kind"], "replay": "python3 tools/check.py C07 --replay <this file>"}, tag="finding=" + fid)
+    seen_causes = {}
     for v in violations:
         job = v["job"]
+        if v["kind"] == "nondeterministic-output":
+            # one VIOLATION line per (tool, job kind, artefact): further inputs with the same symptom are listed in it
+            cause = (job["tool"], job["kind"], v["diffs"][0]["name"])
+            if cause in seen_causes:
+                seen_causes[cause].append(job["inputs"][0])
+                continue
+            seen_causes[cause] = v["also_on_inputs"] = []
         if v["kind"] == "timeout":
             rep.violation({"property": PROP, "kind": "timeout", "tool": job["tool"], "argv": job["argv"], "inputs": job["inputs"],
                            "detail": v["detail"], "job_kind": job["kind"]})
@@ -507,6 +515,7 @@ def report(rep, violations, known_hits, listed, pr, diag, static):
                        "inputs": job["inputs"], "artefact": d["name"], "other_differing_artefacts": [x["name"] for x in v["diffs"][1:6]],
                        "first_difference": first_diff_excerpt(d["a"], d["b"]),
                        "sha1_run_a": hashlib.sha1(d["a"]).hexdigest(), "sha1_run_b": hashlib.sha1(d["b"]).hexdigest(),
+                       "same_symptom_on_inputs": v.get("also_on_inputs", []),
                        "job_kind": job["kind"], "replay": "python3 tools/check.py C07 --replay <this file>"})
     if not pr["ok"]:
         unclassified, changed, unsorted, stale = diag
@@ -529,6 +538,65 @@ def report(rep, violations, known_hits, listed, pr, diag, static):
         else:
             rep.notes.append({"proof_obligation_broken": broken})
     rep.coverage["static_table"] = static
+
+
+def _oracle():
+    return os.path.join(vlib.LEAN, ".lake", "build", "bin", EXE)
+
+
+def oracle_crosscheck(rep, diag, jobs, results):
+    """the compiled Lean model (a) repeats the table comparison, (b) replays neuralbond's cpdef loop:
+    for every completed neuralbond run the node order is read off the emitted file, the model's
+    `cpdefLines` of that order must be exactly the emitted lines, and `isort` of every run's order must
+    be one and the same list (the walk is over the same key set whatever the order)"""
+    problems = []
+    if not os.path.exists(_oracle()):
+        return ["oracle-c07 was not built"], 0
+    pat = re.compile(r"^%meta cpdef (\S+) fragcollapse:(\S+)$")
+    orders = []
+    for job in jobs:
+        if job["tool"] != "neuralbond":
+            continue
+        for x in results.get(job["id"]) or []:
+            if x["rc"] != 0 or "net.basm" not in x["files"]:
+                continue
+            lines = [l for l in x["files"]["net.basm"].decode("utf-8", "replace").split("\n")]
+            tail = []
+            for l in reversed(lines):
+                m = pat.match(l)
+                if m and m.group(1) == m.group(2):
+                    tail.append((m.group(1), l))
+                elif l.strip() == "":
+                    continue
+                else:
+                    break
+            tail.reverse()
+            if tail:
+                orders.append(tail)
+    stdin = "".join("PERM " + ",".join(n for n, _ in o) + "\n" for o in orders)
+    rc, so, se = vlib.run([_oracle()], input_bytes=stdin.encode(), timeout=120)
+    if rc != 0:
+        return ["oracle-c07 failed: " + se[-300:]], 0
+    out = so.splitlines()
+    cov = next((l.split()[1] for l in out if l.startswith("COVERED ")), "?")
+    bad = next((l.split()[1] for l in out if l.startswith("BADKEYS ")), "?")
+    py_cov = "true" if not diag[0] and not diag[1] and not diag[2] else "false"
+    if cov != py_cov:
+        problems.append("oracle says COVERED %s, driver's reading of the table says %s" % (cov, py_cov))
+    if bad != "0":
+        problems.append("oracle: %s table rows carry a wrong key" % bad)
+    sorts = [l[5:] for l in out if l.startswith("SORT ")]
+    cpdefs = [l[6:] for l in out if l.startswith("CPDEF ")]
+    if len(sorts) != len(orders) or len(cpdefs) != len(orders):
+        problems.append("oracle answered %d/%d PERM lines" % (len(sorts), len(orders)))
+    else:
+        if len(set(sorts)) > 1:
+            problems.append("neuralbond runs walked different key sets: " + " / ".join(sorted(set(sorts))[:2])[:300])
+        for o, c in zip(orders, cpdefs):
+            if c != "|".join(l for _, l in o):
+                problems.append("model cpdefLines differs from neuralbond's emitted lines for order " + ",".join(n for n, _ in o)[:200])
+                break
+    return problems, len(orders)
 
 
 def static_summary(sites, rows, diag):
@@ -589,6 +657,11 @@ def run(rep):
                                   "bondgo multi-goroutine programs with channels", "flopoco-backed number types (external binary)"]
     jobs, results, r = correspondence(rep, thorough)
     violations, known_hits, listed = judge(rep, jobs, results, r)
+    oprob, nmodel = oracle_crosscheck(rep, diag, jobs, results)
+    rep.coverage["model_walks_replayed_against_neuralbond_output"] = nmodel
+    if oprob:
+        pr["ok"] = False
+        pr["broken"] += ["model/oracle cross-check: " + x for x in oprob]
     report(rep, violations, known_hits, listed, pr, diag, static_summary(sites, rows, diag))
 
 
